@@ -610,6 +610,50 @@ class Gen:
             out += [s_asg("=", idx(var(an), lit("int", r.randrange(k))), self.lit_for("char")), s_obs(idx(var(an), lit("int", r.randrange(k))))]
         return [s_block(out)]
 
+    def cond64(self, sc):
+        """controlling expressions of 64-bit type: the whole value is compared with zero (6.8.4.1p2, 6.8.5p4, 6.5.13-15), also when
+        its low 32 bits are all clear"""
+        r = self.r
+        out = []
+        vals = [1 << 32, 1 << 40, 0x7fffffff00000000, -(1 << 63), 1 << 63, 0xffffffff00000000, 0, 1, 0x100000001]
+        for _ in range(r.randrange(2, 5)):
+            t = r.choice(["long", "ulong", "llong", "ullong"])
+            v = r.choice(vals)
+            if t in ("long", "llong") and v >= (1 << 63):
+                v -= 1 << 64
+            if t in ("ulong", "ullong") and v < 0:
+                v += 1 << 64
+            x = self.fresh("cx")
+            out.append(s_decl(x, T(t), i_e(lit(t, v))))
+            form = r.randrange(7)
+            if form == 0:
+                out.append(s_if(var(x), s_obs(lit("int", 1)), s_obs(lit("int", 0))))
+            elif form == 1:
+                out.append(s_obs(cond(var(x), lit("int", 11), lit("int", 22))))
+            elif form == 2:
+                out.append(s_obs(bin_("&&", var(x), lit("int", 1))))
+                out.append(s_obs(bin_("||", var(x), lit("int", 0))))
+            elif form == 3:
+                n = self.fresh("cn")
+                out += [s_decl(n, T("int"), i_e(lit("int", 0))),
+                        s_while(var(x), s_block([s_asg("=", var(x), bin_("/", var(x), lit("int", 65536)) if t in ("ulong", "ullong") else bin_("/", var(x), lit("int", -65536))),
+                                                 s_expr(incdec(var(n)))])),
+                        s_obs(var(n))]
+            elif form == 4:
+                n = self.fresh("cn")
+                out += [s_decl(n, T("int"), i_e(lit("int", 0))),
+                        s_do(s_block([s_asg(">>=" if t in ("ulong", "ullong") else "/=", var(x), lit("int", 16) if t in ("ulong", "ullong") else lit("int", 65536)), s_expr(incdec(var(n)))]), var(x)),
+                        s_obs(var(n))]
+            elif form == 5:
+                out.append(s_obs(un("!", var(x))))
+                out.append(s_obs(cast(T("bool"), var(x))))
+            else:
+                n = self.fresh("cn")
+                out += [s_decl(n, T("int"), i_e(lit("int", 0))),
+                        s_for(s_nop(), var(x), s_asg("=", var(x), bin_("&", var(x), bin_("-", var(x), lit(t, 1)))) if t in ("ulong", "ullong") else s_asg("=", var(x), lit(t, 0)), s_expr(incdec(var(n)))),
+                        s_obs(var(n))]
+        return [s_block(out)]
+
     def bfops(self, sc):
         """value of ++/--/op= applied to a bit-field standing at a boundary of its width: the value of the expression is the
         value the field holds afterwards (6.5.3.1p2, 6.5.16p3), not the unwrapped arithmetic result"""
@@ -1023,8 +1067,8 @@ def agg_program(rng, charsigned):
     """a general program that is certain to contain nested members, arrays of structs, pointer walks and sequenced side effects"""
     g = Gen(rng)
     # (two shorter kinds rather than one long program: CSem's cost grows with the length of a run times the size of its memory)
-    g.force = rng.choice([["bfops", "nested", "arrstruct", "ptrwalk", "seqfx", "strings"],
-                          ["unions", "strings", "seqfx", "bfops", "unions"]])
+    g.force = rng.choice([["bfops", "nested", "arrstruct", "ptrwalk", "seqfx", "strings", "cond64"],
+                          ["unions", "strings", "seqfx", "bfops", "unions", "cond64"]])
     g.base_n = rng.randrange(2, 6)
     p = g.program(charsigned)
     return p
